@@ -172,12 +172,21 @@ def chk_mp_bc(c):
     rng = np.random.RandomState(c['seed'])
     kvs = tuple(bspline.make_knots(c['p'], 0.0, 1.0, n) for n in c['n'])
     offs = [(0, 0), (1, 0), (0, 1)] if c['shape'] == 'L' else [(0, 0), (1, 0), (0, 1), (1, 1)]
+    if c.get('perm'):          # patch numbering is the user's choice (e.g. the patch touching all others numbered last)
+        offs = [offs[k] for k in c['perm']]
     geos = [geometry.unit_square().translate((float(a), float(b))) for (a, b) in offs]
     # conforming but different patches: the x knot vector depends on the column, the y knot vector on the row
     pk = [kvs] * len(offs)
     if c.get('hetero'):
         pk = [(bspline.make_knots(c['p'], 0.0, 1.0, c['n'][0] + b), bspline.make_knots(c['p'], 0.0, 1.0, c['n'][1] + 2 * a)) for (a, b) in offs]
     MP = assemble.Multipatch([(k_, g) for k_, g in zip(pk, geos)], automatch=True)
+    # the glued space has one dof per distinct dof position of the conforming patches
+    allpts = set()
+    for p, (a, b) in enumerate(offs):
+        for y in pk[p][0].greville():
+            for x in pk[p][1].greville():
+                allpts.add((round(float(x) + a, 9), round(float(y) + b, 9)))
+    assert MP.numdofs == len(allpts), 'the glued space has %d dofs, the patches have %d distinct dof positions' % (MP.numdofs, len(allpts))
     lin = lambda x, y: 1.0 + x + 2.0 * y
     conds = [(p, face) for p in range(len(geos)) for face in ('left', 'right', 'bottom', 'top')]
     # keep only faces on the outer boundary of the union (an interface face is not a Dirichlet face)
@@ -200,6 +209,16 @@ def chk_mp_bc(c):
         assert np.allclose(up[li], lv, atol=1e-12), 'patch %d face %s: prescribed values are not the boundary data (max error %g)' % (p, face, np.max(np.abs(up[li] - lv)))
         expected |= set(np.asarray(MP.patch_to_global_idx(p))[li].tolist())
     assert set(idx.tolist()) == expected, 'constrained dofs: %d missing, %d spurious' % (len(expected - set(idx.tolist())), len(set(idx.tolist()) - expected))
+    # glued numbering, independently of the Multipatch tables: the constrained global dofs are in bijection with the distinct physical
+    # positions (Greville points) of the face dofs -- a vertex shared by several patches is ONE dof
+    pts = set()
+    for (p, face) in conds:
+        li, _ = assemble.compute_dirichlet_bc(pk[p], geos[p], face, lin)
+        G = np.stack(np.meshgrid(*[kv.greville() for kv in pk[p]], indexing='ij'), axis=-1).reshape(-1, 2)      # (y, x) parameters per local dof
+        a, b = offs[p]
+        for q in np.asarray(li):
+            pts.add((round(float(G[q, 1]) + a, 9), round(float(G[q, 0]) + b, 9)))
+    assert len(idx) == len(pts), 'the faces carry %d distinct dof positions, but %d global dofs are constrained (a shared vertex or edge dof is not glued)' % (len(pts), len(idx))
     idx2, val2 = MP.compute_dirichlet_bcs([(p, face, lin) for (p, face) in sorted(conds)])
     o1, o2 = np.argsort(idx), np.argsort(np.asarray(idx2))
     assert np.array_equal(idx[o1], np.asarray(idx2)[o2]) and np.allclose(np.asarray(val)[o1], np.asarray(val2)[o2]), 'result depends on the order of the conditions'
@@ -261,6 +280,9 @@ def generate(tier, rng):
     quick = tier == 'quick'
     for k in range(12 if quick else 60):
         yield 'mp_bc', {'seed': k, 'p': 1 + k % 3, 'n': [3 + k % 2, 4], 'shape': ['L', 'square'][k % 2], 'ncond': 3 + k % 6, 'hetero': bool(k % 3)}
+    import itertools as _it
+    for k, perm in enumerate(list(_it.permutations(range(3))) + list(_it.permutations(range(4)))[::3]):
+        yield 'mp_bc', {'seed': k, 'p': 1 + k % 3, 'n': [3 + k % 2, 4], 'shape': 'L' if len(perm) == 3 else 'square', 'ncond': 8, 'hetero': bool(k % 3), 'perm': list(perm)}
     seed = 0
     for n in range(1, 5 if quick else 6):
         for r in range(0, n + 1):
